@@ -127,7 +127,7 @@ CHECKS = {
     "C16": (
         "model_checking",
         "explicit-state construction tree over SM source simfiles (optional-property subsets x timing spellings x chart lists) x simfile/chart templates through the real sm_to_ssc, every state compared with a conversion model and with the library's own timing and note readers",
-        "All subsets of <=3/4 of 12 optional source properties (ANIMATIONS alias, SSC-only keys already present, unknown and key-only keys) over OFFSET/BPMS/STOPS x 6 chart lists x 6 simfile templates (none, empty, bare, blank, edited, with a chart) x 6 chart templates (none, empty, blank, extra keys, empty timing keys, NOTES2 spelling), the corpus SM file x 36 template pairs, negative-timing sources: exact key set and values, chart order and fields, TimingData and NoteData equality, source/templates unmodified, no shared mutable objects (also by mutating the result), serialization reloads equal, NotImplementedError for negative BPM/stop.",
+        "All subsets of <=3/4 of 15 optional source properties (ANIMATIONS alias, SSC-only keys already present, unknown and key-only keys, empty / blank / key-only values of properties with an SSC default) over OFFSET/BPMS/STOPS x 6 chart lists x 6 simfile templates (none, empty, bare, blank, edited, with a chart) x 6 chart templates (none, empty, blank, extra keys, empty timing keys, NOTES2 spelling), the corpus SM file x 36 template pairs, negative-timing sources: exact key set and values, chart order and fields, TimingData and NoteData equality, source/templates unmodified, no shared mutable objects (also by mutating the result), serialization reloads equal, NotImplementedError for negative BPM/stop.",
         "Trusted: mc/models/convert.py; blank templates' content read from the library. Key order of the result is not claimed. FREEZES sources and partial chart templates are known findings.",
         "DESIGN.md 5 (C16)",
     ),
